@@ -5,6 +5,7 @@ pub mod c03;
 pub mod c04;
 pub mod c05;
 pub mod c06;
+pub mod c08;
 pub mod c09;
 pub mod c10;
 pub mod c11;
@@ -27,6 +28,7 @@ pub fn dispatch(id: &str, tier: Tier) -> Option<i32> {
         "C04" => Some(c04::run(tier)),
         "C05" => Some(c05::run(tier)),
         "C06" => Some(c06::run(tier)),
+        "C08" => Some(c08::run(tier)),
         "C09" => Some(c09::run(tier)),
         "C10" => Some(c10::run(tier)),
         "C11" => Some(c11::run(tier)),
@@ -55,6 +57,10 @@ pub fn sub(args: &[String]) -> i32 {
             };
             println!("{} {}", d, c10::corpus_e2e_digest(seed, n / 4));
             0
+        }
+        Some("c08-heavy") => {
+            let seed: u64 = args.get(1).and_then(|s| s.parse().ok()).unwrap_or(1);
+            c08::sub_heavy(seed)
         }
         Some("c18-cold") => {
             let seed: u64 = args.get(1).and_then(|s| s.parse().ok()).unwrap_or(1);
